@@ -11,6 +11,23 @@ def sh(cmd, cwd=None, env=None, timeout=3600):
     p = subprocess.run(cmd, cwd=cwd, shell=isinstance(cmd, str), stdout=subprocess.PIPE, stderr=subprocess.STDOUT, env=e, timeout=timeout)
     return p.returncode, p.stdout.decode("utf-8", "replace")
 
+def demo_flags(demo):
+    """default flags, or the ones given in a first-line comment `// g++ ...` of the demo (sanitizers, debug mode)"""
+    flags = ["-std=c++17", "-pthread"]
+    try:
+        first = open(demo).readline().strip()
+    except OSError:
+        return flags
+    if first.startswith("//") and "g++" in first:
+        toks = first.split()
+        extra = [t for t in toks if t.startswith(("-f", "-D", "-O", "-g", "-std=", "-pthread")) ]
+        if extra:
+            flags = extra if any(t.startswith("-std=") for t in extra) else ["-std=c++17"] + extra
+            if "-pthread" not in flags:
+                flags.append("-pthread")
+    return flags
+
+
 def main():
     pid, mdir, name = sys.argv[1], sys.argv[2], sys.argv[3]
     also = []
@@ -29,7 +46,7 @@ def main():
             res["demo_compiles_clean"] = True
             res["demo_clean_rc"] = rc
         else:
-            rc, o = sh(["g++", "-std=c++17", "-pthread", "-I", wt + "/include", demo, "-o", wt + "/demo_clean"])
+            rc, o = sh(["g++"] + demo_flags(demo) + ["-I", wt + "/include", demo, "-o", wt + "/demo_clean"])
             res["demo_compiles_clean"] = rc == 0
             rc, o = sh([wt + "/demo_clean"], cwd=wt, timeout=300)
             res["demo_clean_rc"] = rc
@@ -41,7 +58,7 @@ def main():
             rc, o = sh(["sh", demosh, wt + "/include"], cwd=mdir, timeout=600)
             res["demo_compiles_mutant"] = True
         else:
-            rc, o = sh(["g++", "-std=c++17", "-pthread", "-I", wt + "/include", demo, "-o", wt + "/demo_mut"])
+            rc, o = sh(["g++"] + demo_flags(demo) + ["-I", wt + "/include", demo, "-o", wt + "/demo_mut"])
             res["demo_compiles_mutant"] = rc == 0
             try:
                 rc, o = sh([wt + "/demo_mut"], cwd=wt, timeout=300)
